@@ -150,7 +150,7 @@ impl MintBuilder {
                         if overwrite {
                             mint.0 = amount.0;
                         } else {
-                            mint.0 += amount.0;
+                            mint.0 = Self::checked_mint_sum(mint.0, amount.0)?;
                         }
                     }
                     _ => {}
@@ -174,7 +174,7 @@ impl MintBuilder {
                         if overwrite {
                             mint.0 = amount.0;
                         } else {
-                            mint.0 += amount.0;
+                            mint.0 = Self::checked_mint_sum(mint.0, amount.0)?;
                         }
                     }
                     _ => {}
@@ -182,6 +182,14 @@ impl MintBuilder {
             }
         }
         Ok(())
+    }
+
+    // Int holds values in -2^64..2^64-1; accumulated mint amounts must stay within that range
+    fn checked_mint_sum(current: i128, amount: i128) -> Result<i128, JsError> {
+        match current.checked_add(amount) {
+            Some(sum) if sum >= -(u64::MAX as i128) - 1 && sum <= u64::MAX as i128 => Ok(sum),
+            _ => Err(JsError::from_str("Mint amount overflow")),
+        }
     }
 
     fn validate_mint_witness(
